@@ -184,9 +184,9 @@ pub fn main(run_once: RunOnce) -> i32 {
 fn default_runs(property: &str, tier: oracle::Tier) -> u64 {
     match (property, tier) {
         ("C06", oracle::Tier::Quick) => 10_000,
-        ("C06", oracle::Tier::Thorough) => 150_000,
+        ("C06", oracle::Tier::Thorough) => 60_000,
         ("C07", oracle::Tier::Quick) => 30_000,
-        ("C07", oracle::Tier::Thorough) => 500_000,
+        ("C07", oracle::Tier::Thorough) => 1_000_000,
         ("C08", oracle::Tier::Quick) => 20_000,
         ("C08", oracle::Tier::Thorough) => 400_000,
         ("C17", oracle::Tier::Quick) => 10_000,
